@@ -125,7 +125,7 @@ func (s *Sim) runSuffixRounds(rounds int, done func() bool) bool {
 	redrawn := map[uint64][2]uint64{}
 	for r := 0; r < rounds; r++ {
 		s.enforceMembership()
-		s.stabilize(100)
+		s.stabilize(40)
 		for _, n := range s.suffixMembers() {
 			if !n.Up {
 				continue
@@ -142,7 +142,7 @@ func (s *Sim) runSuffixRounds(rounds int, done func() bool) bool {
 			s.Step++
 			s.tick(n)
 			s.enforceMembership()
-			s.stabilize(100)
+			s.stabilize(40)
 		}
 		if done() {
 			stable++
